@@ -482,8 +482,9 @@ def writeFITSTable(filename, table):
         # Cause error columns to always be floats even when they are set to -1
         if name.startswith('err_'):
             fmt = 'E'
-        elif name == 'uuid':
-            fmt = '{0}A'.format(max(len(val) for val in table[name]))
+        elif isinstance(table[name][0], str):
+            # wide enough for every row, not just the first one
+            fmt = '{0}A'.format(max([len(val) for val in table[name]] + [1]))
         else:
             fmt = FITSTableType(table[name][0])
         cols.append(fits.Column(name=name, format=fmt, array=table[name]))
